@@ -97,13 +97,17 @@ class Feeder:
             self.i += 1
             return l + "\n"
         if self.snap is None:
-            f = sys._getframe(1)
-            loc = f.f_locals
             want = ("linebuffer", "continued", "reading_predoc", "reading_predoc_alt")
-            if f.f_code.co_name == "__next__" and all(k in loc for k in want):
-                self.snap = tuple(loc[k] for k in want)
-            else:
-                self.snap = "NOSNAP"
+            self.snap = "NOSNAP"
+            f = sys._getframe(1)
+            for _ in range(4):  # (the reader may wrap the file in generators of its own: the frame of FortranReader.__next__ is a few levels up)
+                if f is None:
+                    break
+                loc = f.f_locals
+                if f.f_code.co_name == "__next__" and all(k in loc for k in want):
+                    self.snap = tuple(loc[k] for k in want)
+                    break
+                f = f.f_back
             self.n_emitted = len(self.emitted)
         raise StopIteration
 
